@@ -74,7 +74,11 @@ func (l *Labels) FromBytes(data []byte) error {
 	if err != nil {
 		return err
 	}
-	l.original = data
+	// keep a private copy: the caller may reuse its buffer
+	l.original = nil
+	if data != nil {
+		l.original = append(make([]byte, 0, len(data)), data...)
+	}
 	l.Labels = labs
 	return nil
 }
